@@ -191,8 +191,9 @@ func (d *disconnectHandler) handleGracePeriodExpired() {
 	defer d.mu.Unlock()
 
 	if d.election.connectionMonitor != nil {
-		if d.election.connectionMonitor.Status() != ConnectionStatusDisconnected {
-			// Reconnected, don't demote
+		status := d.election.connectionMonitor.Status()
+		if status == ConnectionStatusConnected || status == ConnectionStatusReconnected {
+			// Reconnected, don't demote (a CLOSED connection is not a reconnect)
 			log := d.election.getLogger()
 			log.Info("connection_reconnected_before_grace_period",
 				d.election.logWithContext(d.election.ctx)...,
